@@ -455,9 +455,12 @@ class Calibrator(BaseSeedable):
                         self.n_sampled_params,
                         self.convergence_precision,
                     )
-                    if converged and self.verbose:
-                        print("\nCONVERGENCE CHECK:")
-                        print("Achieved convergence loss, stopping search.")
+                    if converged:
+                        if self.verbose:
+                            print("\nCONVERGENCE CHECK:")
+                            print("Achieved convergence loss, stopping search.")
+                        if self.saving_folder is not None:
+                            self.create_checkpoint(self.saving_folder)
                         break
 
                 if self.saving_folder is not None:
